@@ -265,6 +265,7 @@ fn walk_calendar(cal: &str, cals: &[String], crate_al: &[(String, String)], thor
                 let to: Vec<String> = to.chars().map(|x| x.to_string()).collect();
                 t.call("Cal.WithCalendar", json!({"from": cal, "to": to, "n": day, "iso": date_json(day)}));
                 t.call("Cal.WithCalendarDT", json!({"from": cal, "to": to, "n": day, "iso": date_json(day)}));
+                t.call("Cal.WithDay", json!({"from": cal, "n": day, "iso": date_json(day), "k": match r.range(0, 3) { 0 => 1, 1 => dim.max(1), 2 => 15, _ => r.range(1, 28) }}));
             }
         }
         t.reset();
